@@ -175,6 +175,8 @@ def esc2(ctx: Ctx) -> None:
                     gs = [norm(g) for g, pol in guards_of(mod, c, fn) if pol]
                     if isinstance(a0, ast.Name) and a0.id in fresh:
                         ctx.R.ok("ESC-2", f"{mod.name}.{q}: {norm(c)}", "iterator created in this function")
+                    elif isinstance(a0, (ast.GeneratorExp, ast.ListComp)) or (isinstance(a0, ast.Call) and isinstance(a0.func, ast.Name) and a0.func.id in ("iter", "reversed", "enumerate", "zip", "filter", "map")):
+                        ctx.R.ok("ESC-2", f"{mod.name}.{q}: {norm(c)[:60]}", "next() of an iterator built on the spot (a generator expression / iter(...)), not of a stack item")
                     elif isinstance(a0, ast.Call) and ctx.P.resolve_call(mod, a0).is_pkg("_extract", "extract_iter"):
                         ctx.R.ok("ESC-2", f"{mod.name}.{q}: {norm(c)}", "the engine's own generator")
                     elif any(g.startswith("isinstance(") and "FrameIterator" in g for g in gs):
